@@ -225,6 +225,17 @@ Print Assumptions C12_calls_fold_independently.
    harness only (harness/c12bind.go): every form, boundary values at the declared width,
    fold == circuit oracle, keys c12:fold:binding-form:<form>:<op>:<type>:... . *)
 
+(* SCOPE NOTE (evaluators).  Constant folding has three layers: mpa.Int (the arithmetic),
+   Binary/Unary evalConst (operator + result type; reached from Binary.SSA and from
+   Binary.Eval) and the compile-time Eval entry points of compiler/ast/eval.go through which
+   other constructs evaluate expressions (For.SSA -> Assign.Eval on loop headers,
+   TypeInfo.Resolve for array sizes, Slice.Eval, Index.Eval, Make.Eval,
+   Package.defineConstant, computed shift counts).  The Coq model and the theorems above
+   cover the first two layers — the operator semantics.  The third layer (how the results
+   are bound to names and consumed by loop unrolling, sizes, bounds, indexes) is OUTSIDE the
+   model; harness/c12eval.go ties every entry point to the operator semantics by comparing
+   whole programs with a Go reference, keys c12:eval:<entry>:<form>:... . *)
+
 (* STATE INVENTORY (finite obligation on the model regenerated from the source, checked by
    computation).  The struct fields and package-level variables of the Go packages this
    property is anchored in — compiler/ast, compiler/mpa, compiler/ssa — as emitted from /repo's current
